@@ -4,7 +4,7 @@ From Coq Require Import ZArith List Znumtheory.
 From PySnark Require Import Generated.
 From PySnark.Base Require Import FieldZ Primes.
 From PySnark.Model Require Import Lc.
-From PySnark.Proofs Require Import LcProofs.
+From PySnark.Proofs Require Import LcProofs InvertProofs.
 Import ListNotations.
 Open Scope Z_scope.
 
